@@ -10,18 +10,18 @@ NOT_APPLICABLE = {
            "necessary condition, and the arithmetic itself is out of reach of a sound static argument without symbolic reasoning.",
 }
 TECH = {
-    "C01": "MIR reachability census of panic/alloc/recursion/unsafe sites with guard recognition and an exact-count allow-list",
+    "C01": "MIR reachability census of panic/alloc/recursion/unsafe sites with guard recognition and an exact-count allow-list; positive-control fixture analysed by the same driver",
     "C02": "MIR def-use provenance of outcome arguments + path-sensitive dispatch table + closed constructor-site set + const/ADT facts",
     "C03": "MIR pairing rule (tracked CID -> record_call_cid on all non-error paths) + sibling agreement of signer/verifier",
     "C05": "MIR dominance/guard analysis of the single request site + extracted decision tables (handle_prev_state, merge)",
-    "C06": "MIR field-writer census + def-use provenance of the id counter and lookup key",
-    "C07": "decision-table extraction from MIR + idempotence law",
-    "C08": "decision-table extraction from MIR + symmetry law",
-    "C09": "decision-table extraction from MIR + monotonicity law; must-call (lock-step) and union-shape rules",
+    "C06": "MIR field-writer census + def-use provenance of the id counter and lookup key; previous/current side-discipline lint over MIR provenance",
+    "C07": "decision-table extraction from MIR + idempotence law; previous/current side-discipline lint over MIR provenance",
+    "C08": "decision-table extraction from MIR + symmetry law; previous/current side-discipline lint over MIR provenance",
+    "C09": "decision-table extraction from MIR + monotonicity law; must-call (lock-step) and union-shape rules; previous/current side-discipline lint over MIR provenance",
     "C10": "MIR pairing/must-call rules on the par/fold state machines and stub-generation discipline",
     "C11": "MIR guard analysis + call-graph non-reachability + canon merge table",
-    "C12": "MIR def-use order pins (chain order, start indices) + dispatch tables",
-    "C13": "path-sensitive pairing (append <-> state) + comparison normal form of the size limit + must-write cursor rule",
+    "C12": "MIR def-use order pins (chain order, start indices) + dispatch tables; previous/current side-discipline lint over MIR provenance",
+    "C13": "path-sensitive pairing (append <-> state) + comparison normal form of the size limit + must-write cursor rule; previous/current side-discipline lint over MIR provenance",
     "C14": "MIR must-pass chain with propagated errors, dominance, type-derived check_reference obligations, Cargo feature facts",
     "C15": "comparison normal form + path ordering (swap then check) on DataVerifier::merge",
     "C16": "control-skeleton tables of the instruction executors + scoping pairings",
@@ -64,7 +64,7 @@ for p in props:
     })
 m = {
     "version": 1,
-    "setup_cmd": "python3 -c \"import sys; sys.path.insert(0,'/verif'); from rules import facts; facts.ensure_facts('prod')\"",
+    "setup_cmd": "python3 -c \"import sys; sys.path.insert(0,'/verif'); from rules import facts; facts.ensure_facts('prod'); facts.ensure_fixture_facts()\"",
     "hooks": {
         "guard": "fluencelabs_aquavm_verif",
         "enable": "no source hooks: the analysis is external (rustc_private driver injected as RUSTC_WORKSPACE_WRAPPER under the pinned cargo with RUSTC=nightly)",
@@ -77,13 +77,15 @@ m = {
          "kind_free_text": "rustc_private fact extractor: dumps the type-checked program (MIR CFG, resolved callees, ADTs, impls, consts, unsafe blocks) as JSON"},
         {"name": "rules", "path": "/verif/rules", "serves_properties": [c["property_id"] for c in checks],
          "kind_free_text": "Python evaluators: dominators, edge guards in comparison normal form, def-use provenance, field-writer census, decision-table extraction by path-sensitive dataflow"},
+        {"name": "fixture", "path": "/verif/fixtures/positive", "serves_properties": ["C01", "C06", "C07", "C08", "C09", "C12", "C13", "C20", "C23"],
+         "kind_free_text": "positive-control crate: one deliberate violation per census / zero-expected rule, analysed by airlint on every run; a matcher that stops firing fails the check"},
         {"name": "props", "path": "/verif/props", "serves_properties": [c["property_id"] for c in checks],
          "kind_free_text": "per-property rule tables (instances, floors, reasons) and verdict logic"},
     ],
     "checks": checks,
     "not_applicable": na,
     "notes": "Technique family: static analysis only. `fix:` commits in /repo and known findings are listed in /verif/known_findings.json. "
-             "tools/selftest.py replays the mutation catalogue under /verif/selftest against the checks.",
+             "tools/mutrun.py replays the mutation catalogue (/verif/selftest/mutants, /verif/seeded) and the behaviour-preserving edits (/verif/selftest/benign) against the checks in private worktrees.",
 }
 json.dump(m, open(os.path.join(HERE, "MANIFEST.json"), "w"), indent=1)
 print("checks:", [c["property_id"] for c in checks])
